@@ -15,6 +15,7 @@ mod ops_path;
 mod ops_text;
 mod ops_reader;
 mod ops_stream;
+mod ops_extract;
 mod mkzip;
 
 pub use util::*;
@@ -43,11 +44,17 @@ fn dispatch(op: &str, args: &[Arg]) -> String {
     if let Some(r) = ops_stream::dispatch(op, args) {
         return r;
     }
+    if let Some(r) = ops_extract::dispatch(op, args) {
+        return r;
+    }
     "BADOP".to_string()
 }
 
 fn main() {
     panic::set_hook(Box::new(|_| {}));
+    unsafe {
+        libc::umask(0o022);
+    }
     let stdin = io::stdin();
     let stdout = io::stdout();
     let mut out = io::BufWriter::new(stdout.lock());
